@@ -109,6 +109,21 @@ static void build_api_case (mh_ctx *mc, const rcase *c) {
     MIR_append_insn (ctx, f, MIR_new_insn (ctx, MIR_VA_END, um));
     MIR_append_insn (ctx, f, MIR_new_ret_insn (ctx, 1, MIR_new_int_op (ctx, 0)));
     MIR_finish_func (ctx);
+  } else if (!strcmp (c->api, "uintop")) { /* unsigned integer operands: small, 2^63, 2^64-1 */
+    MIR_type_t rt = MIR_T_I64; MIR_item_t f = MIR_new_func (ctx, "uf", 1, &rt, 1, MIR_T_I64, "a");
+    MIR_reg_t a = MIR_reg (ctx, "a", f->u.func), r = MIR_new_func_reg (ctx, f->u.func, MIR_T_I64, "r");
+    MIR_append_insn (ctx, f, MIR_new_insn (ctx, MIR_MOV, MIR_new_reg_op (ctx, r), MIR_new_uint_op (ctx, UINT64_MAX)));
+    MIR_append_insn (ctx, f, MIR_new_insn (ctx, MIR_ADD, MIR_new_reg_op (ctx, r), MIR_new_reg_op (ctx, r), MIR_new_uint_op (ctx, (uint64_t) 1 << 63)));
+    MIR_append_insn (ctx, f, MIR_new_insn (ctx, MIR_UDIV, MIR_new_reg_op (ctx, r), MIR_new_reg_op (ctx, r), MIR_new_uint_op (ctx, 5)));
+    MIR_append_insn (ctx, f, MIR_new_insn (ctx, MIR_XOR, MIR_new_reg_op (ctx, r), MIR_new_reg_op (ctx, a), MIR_new_uint_op (ctx, 0x8000000000000001ull)));
+    MIR_append_insn (ctx, f, MIR_new_ret_insn (ctx, 1, MIR_new_reg_op (ctx, r)));
+    MIR_finish_func (ctx);
+  } else if (!strcmp (c->api, "strnonul")) { /* string operand and string data whose last byte is not NUL */
+    MIR_type_t rt = MIR_T_I64; MIR_var_t arg = {MIR_T_P, "s", 0}; MIR_item_t pr = MIR_new_proto_arr (ctx, "sp", 1, &rt, 1, &arg), imp = MIR_new_import (ctx, "e1");
+    MIR_item_t f = MIR_new_func (ctx, "sf", 1, &rt, 0); MIR_reg_t r = MIR_new_func_reg (ctx, f->u.func, MIR_T_I64, "r");
+    MIR_append_insn (ctx, f, MIR_new_call_insn (ctx, 4, MIR_new_ref_op (ctx, pr), MIR_new_ref_op (ctx, imp), MIR_new_reg_op (ctx, r), MIR_new_str_op (ctx, (MIR_str_t){3, "abc"})));
+    MIR_append_insn (ctx, f, MIR_new_ret_insn (ctx, 1, MIR_new_reg_op (ctx, r)));
+    MIR_finish_func (ctx);
   } else if (!strcmp (c->api, "pdata")) {
     uintptr_t v[3] = {0, 1, (uintptr_t) 1 << 40}; MIR_new_data (ctx, "pd", MIR_T_P, 3, v); MIR_new_data (ctx, NULL, MIR_T_P, 1, v + 2);
   }
@@ -140,7 +155,8 @@ static int label_index_any (MIR_module_t m, MIR_label_t l, int *fi) { /* positio
 }
 static const char *ref_name (MIR_context_t ctx, MIR_item_t it) { const char *n = MIR_item_name (ctx, it); return n ? n : "(anonymous)"; }
 static int op_equal (mh_ctx *a, mh_ctx *b, MIR_func_t fa, MIR_func_t fb, MIR_op_t *x, MIR_op_t *y, const char *where) {
-  if (x->mode != y->mode) DIFF ("%s: operand mode %d vs %d", where, x->mode, y->mode);
+  /* an unsigned and a signed integer operand with the same 64 bits print alike wherever both are representable and execute alike everywhere: not a difference the property can observe */
+  if (x->mode != y->mode && !((x->mode == MIR_OP_INT || x->mode == MIR_OP_UINT) && (y->mode == MIR_OP_INT || y->mode == MIR_OP_UINT))) DIFF ("%s: operand mode %d vs %d", where, x->mode, y->mode);
   switch (x->mode) {
   case MIR_OP_REG: if (strcmp (MIR_reg_name (a->ctx, x->u.reg, fa), MIR_reg_name (b->ctx, y->u.reg, fb))) DIFF ("%s: register %s vs %s", where, MIR_reg_name (a->ctx, x->u.reg, fa), MIR_reg_name (b->ctx, y->u.reg, fb)); break;
   case MIR_OP_INT: case MIR_OP_UINT: if (x->u.i != y->u.i) DIFF ("%s: integer immediate %lld vs %lld", where, (long long) x->u.i, (long long) y->u.i); break;
